@@ -74,7 +74,17 @@ func ZZ_C10_Builtins(sv *zzsv.T) {
 	sv.Assume(ok)
 	f, isFn := fn.(func(args []object.Object) object.Object)
 	sv.Assume(isFn)
-	sv.Setenv("TZ", "UTC")
+	// the configured time zone is host data too: zone names, and values that
+	// are not names of zones at all (paths, C-library spellings)
+	tz := "UTC"
+	switch name {
+	case "hour", "minute", "seconds", "day", "month", "year", "weekday", "now", "time":
+		if n <= 1 {
+			tz = []string{"UTC", "", "Europe/Helsinki", "/etc/hostname", ":/etc/hostname", "../../etc/hostname", "Bogus/Zone"}[sv.Choice("TZ", 7)]
+		}
+	}
+	sv.Setenv("TZ", tz)
+	sv.Note("TZ", tz)
 	// the rest of the process environment is adversarial: any variable a
 	// built-in asks for may be unset or may name a file
 	sv.EnvOther("/etc/hostname")
